@@ -12,7 +12,7 @@ func init() {
 	register(&PropDef{
 		ID:          "C19",
 		Level:       "other",
-		Explanation: "Byte-level completeness is trusted to the OS and libraries; decided is the wiring of the two streams and the key of the log files: LABELS — the writer opened with \"stdout\" reaches (by def-use flow through locals, append, io.MultiWriter) exactly the stdout position of CompileTask and not the stderr position, and vice versa; in the loaded upstream source CompileTask hands its stdout/stderr parameters to the same positions of CompileCommand, which stores them into Job.Stdout/Job.Stderr; every NewPgidExecutor call receives (job.Stdin, job.Stdout, job.Stderr); inside it the stdout/stderr parameters reach the out/err positions of interp.StdIO; the exec handler builds exec.Cmd{Stdout: hc.Stdout, Stderr: hc.Stderr}; the log handler puts the \"stdout\" reader's bytes into the stdout field and the \"stderr\" reader's into stderr; KEY — writer and reader build the path with one function that uses all of (job id, task name, stream); the writer is opened once per task run (not in a loop) with the task's own job-id variable and name; IDENTITY — the job-id variable the writers are keyed by is set from the job's own id and every Set of a job-supplied name lies behind the reserved-name test; CLOSED AT END — every Close a log writer reaches is a deferred call of Run (or lies in the opening helper, before any command runs): no command's output is written to a closed file; OWNERSHIP — neither Writer, its module callees nor the methods of the type it returns touch a package-level variable (no pooled or shared buffer between log files); MEMBERSHIP — every Reader call of the log handler is dominated by the task-exists edge, which is set only under ReadJob when the job has a task of that name.",
+		Explanation: "Byte-level completeness is trusted to the OS and libraries; decided is the wiring of the two streams and the key of the log files: LABELS — the writer opened with \"stdout\" reaches (by def-use flow through locals, append, io.MultiWriter) exactly the stdout position of CompileTask and not the stderr position, and vice versa; in the loaded upstream source CompileTask hands its stdout/stderr parameters to the same positions of CompileCommand, which stores them into Job.Stdout/Job.Stderr; every NewPgidExecutor call receives (job.Stdin, job.Stdout, job.Stderr); inside it the stdout/stderr parameters reach the out/err positions of interp.StdIO; the exec handler builds exec.Cmd{Stdout: hc.Stdout, Stderr: hc.Stderr}; the log handler puts the \"stdout\" reader's bytes into the stdout field and the \"stderr\" reader's into stderr; KEY — writer and reader build the path with one function that uses all of (job id, task name, stream); the writer is opened once per task run (not in a loop) with the task's own job-id variable and name; IDENTITY — the job-id variable the writers are keyed by is set from the job's own id and every Set of a job-supplied name lies behind the reserved-name test; CLOSED AT END — every Close a log writer reaches is a deferred call of Run (or lies in the opening helper, before any command runs): no command's output is written to a closed file; OWNERSHIP — neither Writer, its module callees nor the methods of the type it returns touch a package-level variable (no pooled or shared buffer between log files); MEMBERSHIP — every Reader call of the log handler is dominated by the task-exists edge, which is set only under ReadJob when the job has a task of that name. OPEN RESULT — Writer and Reader of the file store return the opened file exactly behind the err == nil edge of the open call and a non-nil error otherwise.",
 		Trusted:     []string{"os.File writes are complete and ordered per descriptor", "mvdan/sh passes StdIO to every command of a script", "upstream executor.Job fields are what the executor reads"},
 		NotDecided:  []string{"completeness/order of bytes", "concurrent writers of different jobs (distinct files by the key rule)"},
 		Check:       checkC19,
@@ -433,6 +433,44 @@ func checkC19(w *World, r *Report) {
 			r.Check(exprs["Writer"] == exprs["Reader"] && exprs["Writer"] != "", "key.same-function", "FileOutputStore: writer and reader paths agree", "-", "both open "+exprs["Writer"], "the writer opens "+exprs["Writer"]+" but the reader opens "+exprs["Reader"]+": what is written cannot be read back")
 		}
 	}
+	// ---- the file store hands out the file it opened exactly when opening succeeded
+	for _, m := range []string{"Writer", "Reader"} {
+		f := w.FuncByName("taskctl", "(*FileOutputStore)."+m)
+		if f == nil {
+			continue
+		}
+		okO, nSucc, detail := true, 0, ""
+		pr := w.EnumPaths(f, EnumOpts{Inline: true, MaxPaths: 2000})
+		for _, p := range pr.Paths {
+			if p.End != "return" || len(p.Ret) != 2 {
+				continue
+			}
+			open := ""
+			for _, e := range p.Effects {
+				if e.Kind == "call" && (e.Target == "os.Create" || e.Target == "os.Open" || e.Target == "os.OpenFile") {
+					open = e.Target + "(" + e.Val + ")"
+				}
+			}
+			success := false
+			for _, l := range p.Lits {
+				if open != "" && l.Atom.Op == "==" && l.Atom.L == open+"#1" && l.Atom.R == "nil" {
+					success = l.Val
+				}
+			}
+			if success {
+				nSucc++
+				// (the file itself, or something built from it)
+				if !strings.Contains(p.Ret[0], open+"#0") || p.Ret[1] != "nil" {
+					okO = false
+					detail = "after a successful open it returns (" + p.Ret[0] + ", " + p.Ret[1] + ")"
+				}
+			} else if p.Ret[1] == "nil" {
+				okO = false
+				detail = "it returns a nil error without a successful open (path " + p.LitString() + ")"
+			}
+		}
+		r.Check(okO && nSucc > 0 && !pr.Truncated, "key.open-result", FuncName(f)+": returns the opened file", w.Pos(f.Pos()), "(file, nil) exactly behind the err == nil edge of the open call; an error otherwise", FuncName(f)+" does not hand out the file it opened exactly when the open succeeded: "+detail+" — output is written nowhere (or the task fails although its log could be opened)")
+	}
 	// ---- IDENTITY: the job id the writers are opened for is the stage's reserved variable: it is set
 	// from the job's own id and a job-supplied variable cannot replace it
 	if ro := resolveRoles(w); ro.la != nil {
@@ -490,7 +528,7 @@ func checkC19(w *World, r *Report) {
 	r.Floor("labels.upstream", 4)
 	r.Floor("labels.executor-args", 1)
 	r.Floor("labels.stdio", 3)
-	r.Floor("key.", 9)
+	r.Floor("key.", 11)
 	r.Floor("membership.", 3)
 }
 
